@@ -4,8 +4,9 @@ under /verif/seeded/<id>/: the patch must apply to /repo's HEAD, the program mus
 unedited test suite with it, and the demonstration must tell the two binaries apart."""
 import sys, os, subprocess, json, shutil, tempfile
 pid = sys.argv[1]
-out = "/tmp/seedout_%s" % pid; wt = "/tmp/seed_%s" % pid
-dst = "/verif/seeded/%s" % pid
+rnd = sys.argv[2] if len(sys.argv) > 2 else ""          # round: "" (first) or "2", "3", ...
+out = "/tmp/seedout%s_%s" % (rnd, pid); wt = "/tmp/seed%s_%s" % (rnd, pid)
+dst = "/verif/seeded/%s%s" % (pid, ("-" + rnd) if rnd else "")
 def sh(cmd, cwd=None, timeout=600):
     p = subprocess.run(cmd, shell=True, cwd=cwd, stdout=subprocess.PIPE, stderr=subprocess.STDOUT, timeout=timeout)
     return p.returncode, p.stdout.decode("utf-8", "replace")
